@@ -19,6 +19,22 @@ class Obj(object):
     pass
 
 
+class FrozenObj(Obj):
+    """an attribute-bearing object that refuses attribute assignment once built (like a frozen dataclass): its state lives in
+    __dict__ all the same, which is what the Packer documents to read and rebuild"""
+
+    def __setattr__(self, name, value):
+        raise AttributeError("cannot assign to field %r of a frozen object" % name)
+
+
+class ConvertingObj(Obj):
+    """an attribute-bearing object whose attribute assignment normalises what it is given (here: tensors are detached copies);
+    rebuilding it slot by slot through __dict__ keeps the supplied tensor objects"""
+
+    def __setattr__(self, name, value):
+        object.__setattr__(self, name, value.detach().clone() if isinstance(value, torch.Tensor) else value)
+
+
 _NLEAVES = [lambda: 3, lambda: "s", lambda: {1, 2}, lambda: None, lambda: bytearray(b"ab"), lambda: 2.5]
 
 
@@ -69,9 +85,10 @@ class Builder(object):
         if k == "D":
             return {"k%d" % i: c for i, c in enumerate(kids)}
         if k == "O":
-            o = Obj()
+            # plain object | objects that intercept attribute assignment (their state is filled through __dict__)
+            o = self.rng.choice([Obj, Obj, FrozenObj, ConvertingObj])()
             for i, c in enumerate(kids):
-                setattr(o, "a%d" % i, c)
+                o.__dict__["a%d" % i] = c
             return o
         raise Machinery("bad tree kind %r" % k)
 
@@ -96,7 +113,7 @@ def project(obj, t, leaf):
         assert type(obj) is dict and list(obj.keys()) == ["k%d" % i for i in range(len(t["c"]))]
         kids = list(obj.values())
     else:
-        assert type(obj) is Obj and list(vars(obj).keys()) == ["a%d" % i for i in range(len(t["c"]))]
+        assert isinstance(obj, Obj) and list(vars(obj).keys()) == ["a%d" % i for i in range(len(t["c"]))]
         kids = list(vars(obj).values())
     return {"k": k, "c": [project(o, c, leaf) for o, c in zip(kids, t["c"])]}
 
@@ -210,7 +227,7 @@ class Driver(object):
                     a = a.reshape(listing[0].shape)       # single tensor: get_param_tensor returned it unflattened
                 res = self.pk.construct_from_tensor(a, unique=u)
                 ev.update(self._built(res, lambda x: _index_by_value(offs, listing, x)))
-        except (RuntimeError, AssertionError, TypeError, IndexError, ValueError) as e:
+        except (RuntimeError, AssertionError, TypeError, IndexError, ValueError, AttributeError, KeyError) as e:
             ev["kind"] = "raise"
             ev["exc"] = type(e).__name__
         ev.setdefault("orig_same", True)
